@@ -272,6 +272,13 @@ pub(crate) enum QuotedSpanEnd {
     Unterminated,
 }
 
+/// Verification hooks (feature `verif-hooks`): the position tables of the private
+/// `advance_positions` / `end_positions` modules.
+#[cfg(feature = "verif-hooks")]
+pub mod verif_positions {
+    pub use super::advance_positions::{AdvancePositions, AdvancePositionsCursor, OpenPositions};
+    pub use super::end_positions::{CompactEndPositions, EndPositions};
+}
 pub use error::YamlError;
 pub use index::YamlIndex;
 pub use light::{
